@@ -13,6 +13,7 @@
 ##############################################################################
 """Schema loader utility."""
 
+import http.client
 import os.path
 import re
 import sys
@@ -215,6 +216,10 @@ class BaseLoader(ABC):
             except ValueError as e:
                 # urllib reports malformed URLs (for example an unbalanced
                 # '[' in the host part) with ValueError
+                self._raise_open_error(url, str(e))
+            except http.client.HTTPException as e:
+                # http.client rejects URLs containing blanks or control
+                # characters (InvalidURL), before connecting
                 self._raise_open_error(url, str(e))
 
             try:
